@@ -56,3 +56,55 @@ Lemma router_steps_shape :
     ["parse"; "loop"; "find"; "continue"; "continue"; "return"; "mismatch"; "loop"; "find"; "return"; "not-found";
      "loop"; "delete"; "return"; "not-found"; "optimize"; "ok"] = true.
 Proof. vm_compute. split; reflexivity. Qed.
+
+(* ---- the prune / merge tests read over the model's nodes: compiled (closed computation), then equal to Model/Ops.v
+        is_empty / is_compressible on EVERY node ---- *)
+Inductive conj := JNoData | JEmpty (i : nat) | JOneStatic.
+
+Definition conj_of (c : bytes) : option conj :=
+  if beqb c (w "self.data.is_none()") then Some JNoData
+  else if beqb c (w "self.static_children.len() == 1") then Some JOneStatic
+  else (fix go (i : nat) (l : list string) : option conj :=
+          match l with
+          | [] => None
+          | f :: l' => if beqb c (w ("self." ++ f ++ ".is_empty()")) then Some (JEmpty i) else go (S i) l'
+          end) 0 seven_lists.
+
+Fixpoint all_conj (l : list bytes) : option (list conj) :=
+  match l with
+  | [] => Some []
+  | c :: l' => match conj_of c, all_conj l' with Some j, Some js => Some (j :: js) | _, _ => None end
+  end.
+
+Lemma prune_tests_compile :
+  all_conj gen_is_empty = Some [JNoData; JEmpty 0; JEmpty 1; JEmpty 2; JEmpty 3; JEmpty 4; JEmpty 5; JEmpty 6]
+  /\ all_conj gen_is_compressible = Some [JNoData; JOneStatic; JEmpty 1; JEmpty 2; JEmpty 3; JEmpty 4; JEmpty 5; JEmpty 6].
+Proof. vm_compute. split; reflexivity. Qed.
+
+Definition nth_list (i : nat) (n : node) : list (key * node) :=
+  match i with 0 => n_st n | 1 => n_dc n | 2 => n_dy n | 3 => n_wc n | 4 => n_wi n | 5 => n_ec n | _ => n_en n end.
+Definition nilb' {A} (l : list A) : bool := match l with [] => true | _ => false end.
+Definition sem_conj (j : conj) (n : node) : bool :=
+  match j with
+  | JNoData => match n_data n with None => true | Some _ => false end
+  | JEmpty i => nilb' (nth_list i n)
+  | JOneStatic => match n_st n with [_] => true | _ => false end
+  end.
+
+Theorem prune_tests_are_the_model_tests n :
+  forallb (fun j => sem_conj j n) [JNoData; JEmpty 0; JEmpty 1; JEmpty 2; JEmpty 3; JEmpty 4; JEmpty 5; JEmpty 6] = is_empty n
+  /\ forallb (fun j => sem_conj j n) [JNoData; JOneStatic; JEmpty 1; JEmpty 2; JEmpty 3; JEmpty 4; JEmpty 5; JEmpty 6]
+     = is_compressible n.
+Proof.
+  unfold is_empty, is_compressible, no_kids. cbn [forallb sem_conj nth_list].
+  destruct (n_data n); destruct (n_st n) as [|? [|? ?]]; destruct (n_dc n); destruct (n_dy n); destruct (n_wc n);
+    destruct (n_wi n); destruct (n_ec n); destruct (n_en n); split; reflexivity.
+Qed.
+
+Lemma regenerated_prune_tests_are_the_model_tests :
+  exists je jc, all_conj gen_is_empty = Some je /\ all_conj gen_is_compressible = Some jc
+     /\ forall n, forallb (fun j => sem_conj j n) je = is_empty n /\ forallb (fun j => sem_conj j n) jc = is_compressible n.
+Proof.
+  eexists. eexists. split; [exact (proj1 prune_tests_compile)|]. split; [exact (proj2 prune_tests_compile)|].
+  exact prune_tests_are_the_model_tests.
+Qed.
